@@ -76,6 +76,21 @@ pub fn extreme() -> Vec<(String, Tree)> {
     vec![("lottery".to_string(), one), ("nested-lottery".to_string(), nested), ("lottery-rare-first".to_string(), first)]
 }
 
+/// EXACT ZEROS (C04): games in which a sampled iteration can leave every visited infoset with identical utilities on all
+/// its actions - the sampled bound is then exactly 0.0 although the profile is far from equilibrium: a 3 x 3 "claim" game
+/// with a zero row and column, and matching pennies in one world of a hidden coin
+pub fn exact_zeros() -> Vec<(String, Tree)> {
+    let pay = [[2i64, 1, 0], [1, 2, 0], [0, 0, 0]];
+    let reply = |i: usize| player(2, "y", vec![("l", term(pay[i][0])), ("m", term(pay[i][1])), ("fold", term(pay[i][2]))]);
+    let claim = player(1, "x", vec![("a", reply(0)), ("b", reply(1)), ("fold", reply(2))]);
+    let world = |p: [[i64; 2]; 2]| {
+        let r = |i: usize| player(2, "q", vec![("l", term(p[i][0])), ("r", term(p[i][1]))]);
+        player(1, "p", vec![("u", r(0)), ("d", r(1))])
+    };
+    let hidden = chance("none", vec![(1, world([[1, -1], [-1, 1]])), (1, world([[2, 0], [0, 0]]))]);
+    vec![("claim".to_string(), claim), ("hidden-coin".to_string(), hidden)]
+}
+
 /// ... and the other end: a biased 3 x 3 game whose payoffs are small integers times 2^-1030 - every payoff, utility and
 /// regret is a subnormal number (exact: 44 bits are left)
 pub fn tiny_units() -> (String, Tree, f64) {
